@@ -635,6 +635,8 @@ ALIASES = [
     ("tensorflow.compat.v1", "tf"),
     ("tensorflow.python.framework.smart_cond", "smart_cond"),
     ("tensorflow.python.keras.utils.tf_utils", "smart_cond"),
+    ("tf.python.framework.smart_cond", "smart_cond"),
+    ("tf.python.keras.utils.tf_utils", "smart_cond"),
     ("tensorflow.keras.backend", "K"),
     ("tf.keras.backend", "K"),
     ("tensorflow", "tf"),
@@ -1296,6 +1298,78 @@ def _k_sigmoid(ip, x):
   if x.grad is not None:
     g = t * (1 - t) * x.grad
   return SNum(t, "tensor", g)
+
+
+def _aggregate(ip, kind, v, axis=None, keepdims=False, **k):
+  """Group reduction over the scaling group G of the element under consideration.
+  Modelled as a fresh real tied to the element expression it aggregates (recorded in ip.aggs so that
+  contracts can name it); max additionally satisfies max_G(v) >= v for the member element."""
+  if isinstance(v, Term):
+    return Term(kind, (v,), {"axis": axis, "keepdims": keepdims})
+  v = T(ip, v)
+  g = ip.fresh(kind.replace(".", "_"), "real")
+  if kind.endswith("max"):
+    ip.assume(g >= R(v.e))
+  if kind.endswith("std"):
+    ip.assume(g >= 0)
+  aggs = getattr(ip, "aggs", None)
+  if aggs is None:
+    aggs = ip.aggs = []
+  aggs.append((kind, R(v.e), g))
+  return SNum(g, "tensor", z3.RealVal(0) if ip_tracks_grad(ip) else None, {"group": True, "shape": getattr(v, "tag", None) and v.tag.get("shape", ())})
+
+
+@model("K.max", "tf.reduce_max")
+def _k_max(ip, v, axis=None, keepdims=False, **k):
+  return _aggregate(ip, "K.max", v, axis, keepdims)
+
+
+@model("K.mean", "tf.reduce_mean")
+def _k_mean(ip, v, axis=None, keepdims=False, **k):
+  return _aggregate(ip, "K.mean", v, axis, keepdims)
+
+
+@model("K.std")
+def _k_std(ip, v, axis=None, keepdims=False, **k):
+  return _aggregate(ip, "K.std", v, axis, keepdims)
+
+
+@model("K.sum", "tf.reduce_sum")
+def _k_sum(ip, v, axis=None, keepdims=False, **k):
+  return _aggregate(ip, "K.sum", v, axis, keepdims)
+
+
+@model("tf.math.multiply", "tf.multiply")
+def _tf_multiply(ip, a, b):
+  return ip.binop(ast.Mult(), T(ip, a) if not isinstance(a, Term) else a, b)
+
+
+@model("tf.range")
+def _tf_range(ip, *a, **k):
+  if all(conc(x) for x in a):
+    return list(range(*[int(x) for x in a]))
+  raise Unsupported("tf.range with symbolic bound")
+
+
+@model("tf.concat")
+def _tf_concat(ip, vals, axis=0):
+  if all(isinstance(v, list) for v in vals):
+    out = []
+    for v in vals:
+      out.extend(v)
+    return out
+  if any(isinstance(v, Term) for v in vals):
+    return Term("concat", tuple(vals), {"axis": axis})
+  raise Unsupported("tf.concat")
+
+
+@model("tf.rank")
+def _tf_rank(ip, x):
+  if isinstance(x, SNum) and isinstance(x.tag, dict) and "shape" in x.tag:
+    return len(x.tag["shape"])
+  if isinstance(x, Term):
+    return Term("rank", (x,))
+  return 0
 
 
 @model("tf.shape", "K.shape", "K.int_shape")
